@@ -135,7 +135,7 @@ class Inventory:
         live = fn.reach([(b, t["target"])], avoid_blocks=rel)
         return live, rel
 
-    def check_borrow_site(self, fn, b, rule):
+    def check_borrow_site(self, fn, b, rule, rid_user="R2", rid_nested="R2b"):
         ctx = self.ctx
         t = fn.term(b)
         if "LocalSpanStack" not in t["arg_tys"][0]:
@@ -157,13 +157,13 @@ class Inventory:
                     nested.append((x, "closure " + s["rv"]["closure"]))
         key = "borrow@bb%d" % b if len([x for x in fn.calls_re(r"RefCell::<T>::borrow(_mut)?$") if not fn.blocks[x]["cleanup"]]) > 1 else "borrow"
         ok_user = not user
-        ctx.check(ok_user, "R2", fn.path, fn.loc(b),
+        ctx.check(ok_user, rid_user, fn.path, fn.loc(b),
                   "no caller-supplied closure runs while the thread's span stack is mutably borrowed",
                   "live range %s contains no Fn*::call* on a type-parameter value" % sorted(live),
                   "user code under RefMut<LocalSpanStack>: %s -- a #[trace] function or a fastrace-aware logger called from "
                   "the closure re-borrows the stack: BorrowMutError" % "; ".join("bb%d %s" % u for u in user),
                   extra=key)
-        ctx.check(not nested, "R2b", fn.path, fn.loc(b),
+        ctx.check(not nested, rid_nested, fn.path, fn.loc(b),
                   "library code does not re-borrow the span stack under its own borrow",
                   "", "nested borrow reachable inside the live range: %s" % nested[:4], extra=key)
         res = self.inv.residual_sites(fn, live)
